@@ -1312,7 +1312,8 @@ func (sp *ServiceProvider) validateSignature(el *etree.Element) error {
 	//
 	// The best course of action is to just remove the KeyInfo so that dsig falls back to
 	// verifying against the public key provided in the metadata.
-	if el.FindElement("./Signature/KeyInfo/X509Data/X509Certificate") == nil {
+	signatureNamesCertificate := el.FindElement("./Signature/KeyInfo/X509Data/X509Certificate") != nil
+	if !signatureNamesCertificate {
 		if sigEl := el.FindElement("./Signature"); sigEl != nil {
 			if keyInfo := sigEl.FindElement("KeyInfo"); keyInfo != nil {
 				sigEl.RemoveChild(keyInfo)
@@ -1335,6 +1336,26 @@ func (sp *ServiceProvider) validateSignature(el *etree.Element) error {
 
 	if sp.SignatureVerifier != nil {
 		return sp.SignatureVerifier.VerifySignature(validationContext, el)
+	}
+
+	// dsig falls back to the trusted certificates only when there is exactly one of them.
+	// When the signature names no certificate and several are trusted (for instance while
+	// the IDP rolls its key over), try each trusted certificate in turn.
+	if !signatureNamesCertificate && len(certs) > 1 {
+		var err error
+		for _, cert := range certs {
+			singleCertContext := dsig.NewDefaultValidationContext(&dsig.MemoryX509CertificateStore{
+				Roots: []*x509.Certificate{cert},
+			})
+			singleCertContext.IdAttribute = "ID"
+			if Clock != nil {
+				singleCertContext.Clock = Clock
+			}
+			if _, err = singleCertContext.Validate(el); err == nil {
+				return nil
+			}
+		}
+		return fmt.Errorf("cannot validate signature on %s: %v", el.Tag, err)
 	}
 
 	if _, err := validationContext.Validate(el); err != nil {
